@@ -275,3 +275,55 @@ def Dict.env (d : Dict) (deflate : Bytes → Bytes) (inflate : Bytes → Option 
   { routes := d.routes, codes := d.codes, deflate := deflate, inflate := inflate, compress := compress }
 
 end Cell2v.Codec
+
+namespace Cell2v.Codec
+
+/-! ## `strings.TrimSpace` on dictionary keys
+
+Modelled for the blanks the generator puts around dictionary keys: ASCII space,
+`\t`, `\n`, `\r`.  (Go's `TrimSpace` also removes `\v`, `\f` and the Unicode
+spaces U+0085, U+00A0, …; the generator only produces ASCII keys without `\v`/`\f`,
+on which the two agree.) -/
+
+def isBlank (b : Nat) : Bool := b == 32 || b == 9 || b == 10 || b == 13
+
+def trimRight (bs : Bytes) : Bytes := (bs.reverse.dropWhile isBlank).reverse
+
+/-- leading blanks dropped, then trailing blanks dropped -/
+def trimWs (bs : Bytes) : Bytes := trimRight (bs.dropWhile isBlank)
+
+/-! ## results of earlier `Decode` calls (one long-lived `PomeloPacketDecoder`)
+
+The server keeps ONE packet decoder per component; what a call returned is still
+in use (queued on the owner's scheduler) when the next frame is decoded.  The
+model of that usage: the last `winCap` results are kept, newest first. -/
+
+def winCap : Nat := 8
+
+def winPush {α : Type} (w : List α) (x : α) : List α := (x :: w).take winCap
+
+/-- one `Decode` call on the long-lived decoder: the window afterwards and the result -/
+def decodeShared (w : List (Except PErr (List Packet))) (data : Bytes) :
+    List (Except PErr (List Packet)) × Except PErr (List Packet) :=
+  (winPush w (decodePackets data), decodePackets data)
+
+/-! ## session layer: one Data packet on a working `ClientSession`
+
+`processPacket` (Data branch) + `SessionsImpl.ProcessMessage`: `message.Decode`
+error ⇒ the read loop returns and the session is closed; a value ⇒ the owner gets
+`ClientMsg{ClientReqId: uint32(ID), Route, Data}`.  `crash` = a checked access
+failed = Go panic on the reader goroutine (no recover there: the process dies). -/
+
+inductive SessOut
+  | delivered (reqId : Nat) (route data : Bytes)
+  | closed
+  | crash
+  deriving DecidableEq, Repr
+
+def sessionData (E : Env) (body : Bytes) : SessOut :=
+  match decodeMsg E body with
+  | .ok m => .delivered (m.id % 2 ^ 32) m.route m.data
+  | .err _ => .closed
+  | .oob => .crash
+
+end Cell2v.Codec
